@@ -3,6 +3,7 @@ from __future__ import annotations
 
 import ast
 import copy
+import re
 
 from ..core import (AnalysisError, FuncInfo, Project, attr_chain, const_int, const_str, enclosing, expand, guards_of,
                     local_defs, term, unparse)
@@ -420,6 +421,115 @@ def rule_R5(ctx, prj):
             ctx.viol("R5", key + "/threshold", fi.site(src[0]), f"findings are taken above {thr}; required 30 (functions longer than 30 lines)")
 
 
+def rule_R6_evaluated(ctx, prj) -> bool:
+    """overview and findings renderers evaluated on tagged reports; False when they leave the interpreted fragment"""
+    from ..absint import PyRaise, Unknown
+    from .. import render_eval as RE
+    ctx.rule("R6", "renderers evaluated on tagged reports (every stored figure distinct; languages present in both reports, "
+                   "only in the current and only in the previous one; with, without and with an empty comparison report): "
+                   "rows are the current report's languages by lines of code, each cell shows the figure named by its column "
+                   "header, figures of a language present in both reports and totals are annotated with current - previous "
+                   "(signed) exactly when they differ, text and Markdown agree cell by cell; findings: threshold 30, all "
+                   "when full or at most 10, else the first 10 and the exact number of omitted rows (N in 9..12, with and "
+                   "without repository)", floor=10)
+    lab = RE.Lab(prj)
+    srt = prj.func("codelimit.common.ScanResultTable:ScanResultTable.__init__")
+    mdt = prj.func("codelimit.common.report.format_markdown:_print_totals") if prj.maybe_func("codelimit.common.report.format_markdown:_print_totals") else prj.func("codelimit.common.report.format_markdown:print_totals")
+    F = RE.FIELDS
+    try:
+        scen = [("comparison report", RE.CUR, RE.PREV), ("no comparison report", RE.CUR, None), ("empty comparison report", RE.CUR, {})]
+        for name, cur, prev in scen:
+            th, tf, tr = RE.text_table(lab, cur, prev)
+            mh, mtot, mr = RE.markdown_table(lab, cur, prev)
+            order = sorted(cur, key=lambda l: -cur[l]["loc"])
+            sums_c = {f: sum(cur[l][f] for l in cur) for f in F}
+            sums_p = {f: sum(prev[l][f] for l in prev) for f in F} if prev is not None else None
+            for fmt, site, headers, totals, rows in (("text", srt.site(), th[1:], tf[1:] if tf else None, tr),
+                                                    ("Markdown", mdt.site(), (mh or [None])[1:], (mtot or [None])[1:] if mtot else None, mr)):
+                key0 = "ScanResultTable" if fmt == "text" else "format_markdown"
+                hf = [RE.HEADER_FIELD.get(h, "?") for h in headers]
+                if hf != F:
+                    ctx.viol("R6", f"{key0}/columns", site, f"{fmt}, {name}: column headers {headers} stand for {hf}; required {F}")
+                    continue
+                langs = [r[0].strip("* ").strip() for r in rows]
+                if langs != order:
+                    ctx.viol("R6", f"{key0}/languages_totals/order", site, f"{fmt}, {name}: languages are listed as {langs}; required by lines of code, largest first: {order}")
+                    continue
+                ok = True
+                for r in rows:
+                    lang = r[0].strip("* ").strip()
+                    cells = [c.strip() for c in r[1:]]
+                    both = prev is not None and lang in prev
+                    for f, c in zip(F, cells):
+                        want = RE.cell(cur[lang][f], prev[lang][f] if both else None)
+                        base = re.match(r"^-?\d+", c)
+                        if both or prev is None:
+                            good = c == want
+                        else:
+                            good = base is not None and base.group() == str(cur[lang][f])
+                        if not good and ok:
+                            ok = False
+                            role = "LanguageTotalsDelta" if prev is not None else key0
+                            ctx.viol("R6", f"{role}.{f}/{key0}._populate/row/roles", site,
+                                     f"{fmt}, {name}: the {f} cell of {lang} shows '{c}'; required '{want}' (current {cur[lang][f]}"
+                                     + (f", previous {prev[lang][f]}" if both else "") + ")")
+                    if len(cells) != len(F) and ok:
+                        ok = False
+                        ctx.viol("R6", f"{key0}._populate/row", site, f"{fmt}, {name}: the row of {lang} has {len(cells)} figures; required {len(F)}")
+                if not ok:
+                    continue
+                if totals is not None and len(cur) > 1:
+                    tcells = [str(c).strip() for c in totals]
+                    want = [RE.cell(sums_c[f], sums_p[f] if sums_p is not None else None) for f in F]
+                    if tcells != want:
+                        i = next((i for i, (a, b) in enumerate(zip(tcells, want)) if a != b), 0)
+                        ctx.viol("R6", f"ScanTotalsDelta.total_{F[i]}/{key0}/columns", site,
+                                 f"{fmt}, {name}: the totals show {tcells}; required {want} (current totals {sums_c}"
+                                 + (f", previous totals {sums_p}" if sums_p is not None else "") + ")")
+                        continue
+                elif len(cur) > 1:
+                    ctx.viol("R6", f"{key0}/totals-missing", site, f"{fmt}, {name}: no totals line for {len(cur)} languages")
+                    continue
+                ctx.ok("R6", site, f"{fmt}, {name}: {len(rows)} rows x {len(F)} figures and the totals as specified")
+            if [[c.strip() for c in r] for r in tr] != [[c.strip("* ").strip() if i == 0 else c.strip() for i, c in enumerate(r)] for r in mr]:
+                ctx.viol("R6", "renderers-disagree", srt.site(), f"{name}: text rows {tr} and Markdown rows {mr} differ")
+        for q in ("codelimit.common.report.format_text:print_findings", "codelimit.common.report.format_markdown:print_findings"):
+            fi = prj.func(q)
+            key = f"{fi.module.name.split('.')[-1]}.print_findings"
+            bad = None
+            rows = 0
+            for full in (False, True):
+                for n in (9, 10, 11, 12):
+                    for repo in (False, True):
+                        asked, shown, more = RE.findings(lab, q, n, full, repo)
+                        rows += 1
+                        ctx.obligations += 1
+                        trunc = (not full) and n > 10
+                        want_shown = list(range(10)) if trunc else list(range(n))
+                        case = f"with full={full}, {n} findings, repository={'present' if repo else 'absent'}"
+                        if asked != [30]:
+                            bad = bad or (case, f"findings are taken above {asked}; required 30 (functions longer than 30 lines)", "/threshold")
+                        elif shown != want_shown:
+                            bad = bad or (case, f"the findings shown are {shown}; required {'the first 10' if trunc else 'all ' + str(n)} in order", "")
+                        elif trunc and more != [n - 10]:
+                            bad = bad or (case, f"the omitted-rows message shows {more}; required {n - 10}", "")
+                        elif not trunc and more:
+                            bad = bad or (case, "an omitted-rows message is printed although nothing is omitted", "")
+                        else:
+                            ctx.discharged += 1
+            if bad:
+                ctx.viol("R6", key + bad[2], fi.site(), f"{bad[0]}: {bad[1]}")
+            else:
+                ctx.instances.setdefault("R6", []).extend(dict(site=fi.site(), what=f"{key} row {i}", verdict="ok") for i in range(rows))
+                ctx.lines.append(f"OK rule=R6 site={fi.site()} construct={key} rows={rows}")
+    except (Unknown, PyRaise) as e:
+        ctx.info(f"renderers not evaluable ({type(e).__name__}: {e}); structural rules decide")
+        ctx.rule("R6", "renderers not evaluable by the interpreter: structural rules R1-R5 decide", floor=0)
+        ctx.violations[:] = [v for v in ctx.violations if v.rule != "R6"]
+        return False
+    return True
+
+
 def run(ctx, prj: Project):
     ctx.explanation = (
         "Field / role / constant agreement of the renderers decided statically: provenance roles (current vs previous) "
@@ -428,6 +538,10 @@ def run(ctx, prj: Project):
         "resolved by def-use. Rich's layout and locale formatting of numbers are run-time and not decided.")
     ctx.not_decided = ["the rendered text itself (Rich layout, ':n' locale formatting)"]
     ctx.trust("CPython ast", "parameter names *_current / *_previous / diff_report state the intended role")
+    if rule_R6_evaluated(ctx, prj):
+        # decided by evaluation; what evaluation does not show is kept from the structural rules: presence tests that
+        # depend on emptiness (part of R1) are covered by the 'empty comparison report' scenario
+        return
     rule_R1(ctx, prj)
     rule_R2(ctx, prj)
     rule_R3(ctx, prj)
